@@ -90,6 +90,18 @@ TABLE['RFC1158-MIB']['nullSpecific'] = ('SNMPv2-SMI', 'zeroDotZero')
 V1_BASE = ('RFC1155-SMI', 'RFC1065-SMI', 'RFC-1212', 'RFC-1215', 'RFC1213-MIB', 'RFC1158-MIB')
 
 
+def stay_pairs():
+    """Symbols of MIB-II without an SMIv2 home (at, egp, ipRoute groups): they stay where they are - an import of one
+    of them must survive compilation, from its own module or (RFC1158-MIB being obsoleted by RFC 1213) RFC1213-MIB."""
+    out = []
+    for m in ('RFC1213-MIB', 'RFC1158-MIB'):
+        for sym in AT + EGP + IP_ROUTE:
+            if m == 'RFC1158-MIB' and sym in ('ipRouteMetric5', 'ipRouteInfo', 'ipRouteTable'):
+                continue     # not defined by RFC 1158 (its table is called ipRoutingTable)
+            out.append((m, sym, None))
+    return out
+
+
 def pairs():
     out = []
     for m in sorted(TABLE):
